@@ -1132,7 +1132,7 @@ Definition overlay_cpf (t : sem) (p : ovp) (maxcol maxrow : Z) (f : bool) : res 
         let* wh := m_pack t SFixed f in
         if snd wh =? 0 then Err EWidget      (* fixed widget must have a height *)
         else Ok (clrp maxcol (ov_align p) WClip (fst wh) None (ov_left p) (ov_right p), Some (snd wh))
-    | wt => Ok (clrp maxcol (ov_align p) wt (wt_amount wt) (ov_minw p) (ov_left p) (ov_right p), None)
+    | _ => Ok (clrp maxcol (ov_align p) (ov_wt p) (wt_amount (ov_wt p)) (ov_minw p) (ov_left p) (ov_right p), None)
     end in
   let '((lft, rgt), oh) := lrh in
   match oh with
@@ -1145,8 +1145,8 @@ Definition overlay_cpf (t : sem) (p : ovp) (maxcol maxrow : Z) (f : bool) : res 
           let* height := m_rows t (maxcol - lft - rgt) f in
           let '(top, bottom) := ctbf maxrow (ov_valign p) (HGiven height) height None (ov_top p) (ov_bottom p) in
           Ok (lft, rgt, top, if maxrow <? height then maxrow - height else bottom)
-      | ht =>
-          let '(top, bottom) := ctbf maxrow (ov_valign p) ht (ht_amount ht) (ov_minh p) (ov_top p) (ov_bottom p) in
+      | _ =>
+          let '(top, bottom) := ctbf maxrow (ov_valign p) (ov_ht p) (ht_amount (ov_ht p)) (ov_minh p) (ov_top p) (ov_bottom p) in
           Ok (lft, rgt, top, bottom)
       end
   end.
